@@ -680,6 +680,10 @@ func (p *Proc) callModular(ec *ectx, ct *Contract, fi *FuncInfo, fn *types.Func,
 	st := ec.st
 	ck := "G:$calls:" + fn.Name()
 	p.heapSet(st, ck, Add(p.heapGet(st, ck, SInt), IntLit(1)))
+	if nt := namedOf(recvTypeOf(sig)); nt != nil {
+		ck2 := "G:$calls:" + nt.Obj().Name() + "." + fn.Name()
+		p.heapSet(st, ck2, Add(p.heapGet(st, ck2, SInt), IntLit(1)))
+	}
 	extra := p.bindParams(ct, fi, sig, recv, args)
 	cname := calleeText(call)
 	ord := p.callOrdinal(call)
@@ -984,4 +988,11 @@ func (p *Proc) havocPointee(st *State, ptr Val) {
 	v := Val{T: p.freshConst("dec", p.ctx.sortOf(elem)), Typ: elem}
 	p.wfAssume(st, v)
 	p.heapSet(st, key, Store(p.ptrHeap(st, elem), ptr.T, v.T))
+}
+
+func recvTypeOf(sig *types.Signature) types.Type {
+	if sig.Recv() == nil {
+		return types.Typ[types.Invalid]
+	}
+	return sig.Recv().Type()
 }
